@@ -25,7 +25,8 @@ EXPLANATION = (
     "are read from the PSRFITS keys/columns that define them; (R7) the samples stay float32 from read_subint to what read_plan yields: no numpy "
     "float64 scalar (np.sqrt(2.0), np.float64(...), ...) is combined with the float32 sample arrays - under NumPy 2 promotion that makes the block "
     "float64, which the typed streaming kernels reject while read_block (which casts) still works. Not decided: sample values, scale/offset arithmetic, "
-    "multi-polarisation sums."
+    "multi-polarisation sums. "
+    "Since F36, R1 also forbids an unqualified squeeze in io/pfits.py: a row keeps its (sample, polarisation, channel) axes when one of them has length 1."
 )
 READERS = "sigpyproc.readers"
 PFITS = "sigpyproc.io.pfits"
